@@ -8,6 +8,7 @@ import (
 	"fmt"
 	"net"
 	"os"
+	"path/filepath"
 	"runtime"
 	"sync"
 	"testing"
@@ -42,6 +43,9 @@ type c15Case struct {
 	Cancel  string      `json:"cancel"` // after | during
 	// Twice: every document is pushed twice in a row (a watcher reports saves that change nothing)
 	Twice bool `json:"twice,omitempty"`
+	// ViaLoad: documents are written to a file and loaded with Load(path), as the file watcher does,
+	// instead of being handed to Unmarshal
+	ViaLoad bool `json:"via_load,omitempty"`
 }
 
 // Configurations A and B: under A 10.1.0.5 is bound to key-A; under B it is denied.  B's provider for
@@ -101,6 +105,7 @@ func genC15(t *rapid.T) c15Case {
 	}
 	c.Lookups = rapid.IntRange(20, 200).Draw(t, "lookups")
 	c.Twice = rapid.Bool().Draw(t, "reload_same_document_twice")
+	c.ViaLoad = rapid.IntRange(0, 2).Draw(t, "reload_via_load") == 0
 	return c
 }
 
@@ -337,21 +342,37 @@ func runC15(t failer, c c15Case) c15Result {
 		}(i, cl)
 	}
 	// reloads
+	push := st.Unmarshal
+	if c.ViaLoad {
+		ev.Class("reload-via-Load(path)")
+		dir, err := os.MkdirTemp("", "verif-c15-")
+		if err != nil {
+			t.Fatalf("HARNESS-BUG: %v", err)
+		}
+		defer os.RemoveAll(dir)
+		path := filepath.Join(dir, "tacquito."+c.Format)
+		push = func(doc []byte) error {
+			if err := os.WriteFile(path, doc, 0o600); err != nil {
+				return err
+			}
+			return st.Load(path)
+		}
+	}
 	reloadDone := make(chan struct{})
 	go func() {
 		defer close(reloadDone)
 		for _, w := range c.Reloads {
-			_ = st.Unmarshal(docs[w])
+			_ = push(docs[w])
 			runtime.Gosched()
 			if c.Twice {
-				_ = st.Unmarshal(docs[w])
+				_ = push(docs[w])
 				runtime.Gosched()
 			}
 		}
 		// settle: push the last document twice more so that it is fully applied when we return
 		last := docs[c.Reloads[len(c.Reloads)-1]]
-		_ = st.Unmarshal(last)
-		_ = st.Unmarshal(last)
+		_ = push(last)
+		_ = push(last)
 	}()
 	// lookups concurrent with the reloads: each answer must be A's or B's
 	wg.Add(1)
